@@ -563,13 +563,14 @@ class Prober(object):
 
     def _exprMatchExpr(self, name):
         # `$expr` only shows the truthiness of the value; the nested forms compare the value with
-        # constants of several BSON types so that more of it becomes visible
+        # constants of several BSON types so that more of it becomes visible (the empty document
+        # separates the documents an operator builds: every document is truthy under `$expr`)
         proj = {'$project': {'_id': 1}}
         out = []
         for a in self._expr_args('exprMatchExpr', name):
             forms = [lambda x: x]
             if in_table(self.T, 'exprMatchExpr', name):
-                forms += [(lambda x, c=c: {'$gt': [x, c]}) for c in (1, 'b', [0], True, datetime.datetime(2020, 2, 15))]
+                forms += [(lambda x, c=c: {'$gt': [x, c]}) for c in (1, 'b', [0], True, datetime.datetime(2020, 2, 15), {})]
             for form in forms:
                 out.append(self._agg_call([{'$match': {'$expr': form({name: a})}}, proj],
                                           [[{'$match': {}}, proj],
